@@ -56,6 +56,7 @@ class _Tunnel(Interface):
 
     __slots__ = (
         "_data_endpoint_addr",
+        "_disconnecting",
         "_heartbeat",
         "_reconnect_task",
         "_requested_address",
@@ -90,6 +91,7 @@ class _Tunnel(Interface):
         self.sequence_number = 0
         self.cemi_received_callback = cemi_received_callback
         self._data_endpoint_addr: tuple[str, int] | None = None
+        self._disconnecting = False
         self._heartbeat = ConnectionHeartbeat(
             name="Tunnel",
             send_connectionstate=self._connectionstate_request,
@@ -131,6 +133,7 @@ class _Tunnel(Interface):
 
         Raise CommunicationError when not successful.
         """
+        self._disconnecting = False
         self.xknx.connection_manager.connection_state_changed(
             XknxConnectionState.CONNECTING, self.connection_type
         )
@@ -165,6 +168,9 @@ class _Tunnel(Interface):
 
     def _tunnel_lost(self) -> None:
         """Prepare for reconnection or shutdown when the connection is lost. Callback."""
+        if self._disconnecting:
+            # the user is disconnecting - `disconnect()` cleans up; don't reconnect
+            return
         if self.auto_reconnect:
             # _tunnel_lost might be called multiple times when the transport receives
             # multiple invalid frames - ensure only one reconnect task is started
@@ -232,6 +238,7 @@ class _Tunnel(Interface):
 
     async def disconnect(self) -> None:
         """Disconnect tunneling connection."""
+        self._disconnecting = True
         self._prepare_disconnect()
         self._stop_reconnect()
         try:
